@@ -506,6 +506,7 @@ func wrChurn(t *tr.W, rnd *rand.Rand, c wrCfg, secs float64, idx int) string {
 	view, _ := d.Scan(s1, 0)
 	t.Emit(tr.Ev{"e": "View", "sn": 1, "items": view, "count": s1.Count()})
 	stop := int32(0)
+	var epoch sync.RWMutex
 	var wg sync.WaitGroup
 	for w := 0; w < 2; w++ {
 		wg.Add(1)
@@ -516,16 +517,58 @@ func wrChurn(t *tr.W, rnd *rand.Rand, c wrCfg, secs float64, idx int) string {
 			debug.SetPanicOnFault(true)
 			for n := 0; atomic.LoadInt32(&stop) == 0; n++ {
 				// odd keys, between the stable ones: they become pivots and cursor positions of the readers
+				epoch.RLock()
 				wr.Put2(d.Item(2*(1+wrnd.Intn(nstable))+1, n))
 				if wrnd.Intn(4) != 0 {
 					wr.Delete(d.Item(2*(1+wrnd.Intn(nstable))+1, 0))
 				}
+				epoch.RUnlock()
 				if n%64 == 0 {
 					time.Sleep(20 * time.Microsecond)
 				}
 			}
 		}(w)
 	}
+	// epochs keep turning: items deleted in a later epoch than they were born in go through the writers' garbage lists,
+	// the snapshot's list, the collection workers and the barrier (NewSnapshot only while no writer call is in progress).
+	// Rolling scenarios: the readers follow the LATEST snapshot and every older one is closed, so the collection and free
+	// workers run while the readers scan; pinned scenarios keep reading the first snapshot (nothing is collected meanwhile).
+	type curSnap struct {
+		s   *nitro.Snapshot
+		sn  int
+		log bool // its view was recorded: scans of it are logged and judged (every snapshot is scanned, few are logged)
+	}
+	rolling := idx%4 >= 2
+	var cur atomic.Value
+	cur.Store(&curSnap{s1, 1, true})
+	nsnap := 0
+	wg.Add(1)
+	go func() {
+		defer wg.Done()
+		for atomic.LoadInt32(&stop) == 0 {
+			time.Sleep(time.Duration(200+rnd.Intn(800)) * time.Microsecond)
+			epoch.Lock()
+			sx, err := d.NewSnapshot()
+			if err == nil && rolling {
+				sn, _, _ := nitro.VerifSnapInfo(sx)
+				nsnap++
+				logIt := nsnap%16 == 0
+				if logIt {
+					v, _ := d.Scan(sx, 0)
+					t.Emit(tr.Ev{"e": "View", "sn": int(sn) + 1000, "items": v, "count": sx.Count()})
+				}
+				old := cur.Load().(*curSnap)
+				cur.Store(&curSnap{sx, int(sn) + 1000, logIt})
+				epoch.Unlock()
+				old.s.Close()
+				continue
+			}
+			epoch.Unlock()
+			if err == nil {
+				sx.Close()
+			}
+		}
+	}()
 	var rwg sync.WaitGroup
 	for r := 0; r < 3; r++ {
 		rwg.Add(1)
@@ -534,8 +577,10 @@ func wrChurn(t *tr.W, rnd *rand.Rand, c wrCfg, secs float64, idx int) string {
 			defer rwg.Done()
 			debug.SetPanicOnFault(true)
 			for atomic.LoadInt32(&stop) == 0 {
+				cs := cur.Load().(*curSnap)
+				s1, sn1, logged := cs.s, cs.sn, cs.log && (!rolling || rr.Intn(4) == 0)
 				if !s1.Open() {
-					return
+					continue // the snapper has moved on and closed it
 				}
 				var items [][2]int
 				switch rr.Intn(4) {
@@ -561,16 +606,20 @@ func wrChurn(t *tr.W, rnd *rand.Rand, c wrCfg, secs float64, idx int) string {
 					for _, k := range ks {
 						items = append(items, per[k]...)
 					}
-					t.Emit(tr.Ev{"e": "RScan", "sn": 1, "items": items, "by": "visitor"})
+					if logged {
+						t.Emit(tr.Ev{"e": "RScan", "sn": sn1, "items": items, "by": "visitor"})
+					}
 				case 2:
 					items, _ = d.Scan(s1, []int{1, 3, 17}[rr.Intn(3)])
-					t.Emit(tr.Ev{"e": "RScan", "sn": 1, "items": items, "by": "iterator"})
+					if logged {
+						t.Emit(tr.Ev{"e": "RScan", "sn": sn1, "items": items, "by": "iterator"})
+					}
 				default:
-					if c.Backup != "" && r == 0 {
+					if c.Backup != "" && r == 0 && cs.log {
 						s1.Open()
 						os.RemoveAll(c.Backup)
 						err := d.StoreToDisk(c.Backup, s1, 1+rr.Intn(3), nil)
-						ev := tr.Ev{"e": "Restore", "sn": 1, "stored": err == nil, "loaded": false, "items": [][2]int{}, "count": 0}
+						ev := tr.Ev{"e": "Restore", "sn": sn1, "stored": err == nil, "loaded": false, "items": [][2]int{}, "count": 0}
 						if err == nil {
 							rc := c.Cfg
 							rc.Writers, rc.Guard, rc.MM = 1, false, false
@@ -597,7 +646,7 @@ func wrChurn(t *tr.W, rnd *rand.Rand, c wrCfg, secs float64, idx int) string {
 	atomic.StoreInt32(&stop, 1)
 	wg.Wait()
 	rwg.Wait()
-	s1.Close()
+	cur.Load().(*curSnap).s.Close()
 	d.GC()
 	if err := d.Quiesce(); err != nil {
 		return err.Error()
